@@ -160,6 +160,15 @@ pub fn run_exit_contract(
         let (file, rep) = totals(&r, spec);
         let cmd = spec.cmdline();
         if kind == "other-mode-custom" {
+            // (an input refused at its very first RDH - a corruption that hit it - is not processed at all: any non-zero
+            // status, the matter of the input classes above)
+            if init_failed(&r) {
+                if r.status == 0 {
+                    out.fail = fail("status-custom-check-other-mode", format!("input refused at the first RDH but exit status 0 [cmd: {cmd}]"));
+                    return out;
+                }
+                continue;
+            }
             // (a view may also run into a fatal of its own - excess padding is one for the views: 0 or 1 without -E)
             let want = n.unwrap_or(if fatal_reported(&r) && r.status == 1 { 1 } else { 0 });
             if r.status != want {
@@ -299,7 +308,11 @@ pub fn run_exit_contract(
             let listed: Vec<&str> = listed_owned.iter().map(|s| s.as_str()).collect();
             let got_owned: Vec<String> = shown.iter().map(norm).collect();
             let got: Vec<&str> = got_owned.iter().map(|s| s.as_str()).collect();
-            let single_batch = itsgen::walker::walk(&spec.input).pkts.len() <= 100;
+            // (exact only when the cap did not cut the run short: once the cap is reached the stop flag ends the
+            // analysis, and which of the remaining errors were still collected is a matter of scheduling - then the
+            // statement's own bounds apply: listed codes only, at most N)
+            let all_collected = file.map_or(false, |t| t as usize == shown0.len());
+            let single_batch = all_collected && itsgen::walker::walk(&spec.input).pkts.len() <= 100;
             let ok = if single_batch {
                 got == listed.iter().take(cap).copied().collect::<Vec<_>>()
             } else {
